@@ -477,6 +477,19 @@ func describeNoOPT(m *dns.Msg) string {
 	return d
 }
 
+// optFlagsOnWire is what the servers' normalisation leaves of the reserved
+// flags of the response's OPT record, if it has one: those of the upper octet
+// (DO, the topmost, is left out: it echoes what the upstream was asked, and
+// that is hop-by-hop business).
+func optFlagsOnWire(m *dns.Msg) string {
+	opt := m.IsEdns0()
+	if opt == nil {
+		return "no OPT"
+	}
+
+	return fmt.Sprintf("%#04x", opt.Hdr.Ttl&0x7f00)
+}
+
 // ---- stacks ----
 
 type stack interface {
@@ -988,6 +1001,19 @@ func run(s *kernel.Sim, prop, cfg string) {
 		if a != b {
 			s.Failf("C04/hit-differs", "cached answer differs from a fresh one",
 				"req %d (age %v):\n cached %s\n fresh  %s", i, age, a, b)
+
+			return
+		}
+
+		// The OPT record itself is rewritten by the server layer, but not
+		// all of it: of its flags field the upper octet goes out as the
+		// handler left it.  Its reserved bits are part of the answer the
+		// client sees.  (Judged when both answers
+		// have an OPT record of the handler's: where one has none, the
+		// server layer makes one.)
+		if fa, fb := optFlagsOnWire(resp), optFlagsOnWire(fresh); fa != fb && resp.IsEdns0() != nil && fresh.IsEdns0() != nil {
+			s.Failf("C04/hit-differs", "cached answer differs from a fresh one in the EDNS flags that reach the client",
+				"req %d (age %v): %s: cached %s, fresh %s", i, age, a, fa, fb)
 
 			return
 		}
